@@ -70,7 +70,7 @@ def fails_now(prog: list) -> bool:
 def main() -> None:
     run = Run("C01", "translation_validation")
     run.forbid()
-    run.require_vo(["Ssb/EquivSound.v", "Ssb/Machine.v", "Lang/SrcSem.v", "Ssb/Silent.v", "Comp/PopSem.v", "Comp/RemoveSem.v", "Comp/TableRight.v", "Comp/BackEnd.v"])
+    run.require_vo(["Ssb/EquivSound.v", "Ssb/Machine.v", "Lang/SrcSem.v", "Ssb/Silent.v", "Comp/PopSem.v", "Comp/RemoveSem.v", "Comp/TableRight.v", "Comp/BackEnd.v", "Comp/EraseSem.v", "Comp/FinalizeSem.v"])
     run.props("Props/TablesAgree.v")
     run.props("Props/C01.v")
     n_random = 1500 if run.tier == "quick" else 20000
@@ -127,12 +127,14 @@ def main() -> None:
     bcmds, bwhere = [], []
     for i, c in zip(sub, caps):
         cap = c.get("cap", {})
-        if c.get("ok") and "fin_out" in cap and "rem_out" in cap:
+        if c.get("ok") and "fin_out" in cap and "rem_out" in cap and "fin_in" in cap:
             bcmds.append([A("backend_ok"), pops_sexp(cap["fin_out"]), program_sexp(cap["rem_out"])])
+            bwhere.append(i)
+            bcmds.append([A("finalize_ok"), pops_sexp(cap["fin_in"])])
             bwhere.append(i)
     prem_first = None
     for i, b in zip(bwhere, run_driver(bcmds)):
-        good = bool(b.get("backend_ok"))
+        good = bool(b.get("backend_ok")) or bool(b.get("finalize_ok"))
         # a source with a cycle of silent moves is outside the property; there the premise rightly fails
         if not good and i in {j for j, eq in zip(idx, eqs) if eq["r"] == "cycle"}:
             run.count("backend-theorem premises: silent cycle (outside the property)")
